@@ -42,7 +42,7 @@ TRUSTED = [
     "C18 /proc/<pid>/status: `Cpus_allowed_list` is the task's current mask printed as a range list (%*pbl); the harness renderer is checked against the live kernel on every run",
 ]
 MANIFEST = {
-    "level_text": "Machine-checked Lean 4 proofs over a four-layer model (simulated kernel, native layer with the translator's IOPRIO_CLASS_SHIFT, _pslinux.Process under wrap_exceptions, psutil.Process): ioprio pack/unpack round-trip for every class < 8 and data < 8192; one refinement theorem C18_refines (for EVERY kernel state, process and request, whenever the specification promises an outcome the model produces exactly that outcome and that kernel) with the named corollaries set-then-get for nice/ionice/cpu_affinity/rlimit on every valid value, other processes and other attributes unchanged, the listed invalid requests raise ValueError with an empty effect log, cpu_affinity([]) selects all eligible CPUs, duplicates and order are irrelevant, the get form is sorted and duplicate-free. The native getters take the C errno on entry as an input (translator facts: is errno cleared, which failure test): C18_nice_get_exact / C18_ionice_get_exact / C18_affinity_get_exact hold for every kernel value (nice -1 included) and every entry errno, C18_context_irrelevant carries every theorem over to calls made in any execution context (entry errno; status file cached by oneshot()), with proved counterexamples for the three broken errno protocols (C18_stale_errno_counterexample) and for the stale status file (C18_oneshot_stale_status_counterexample). C18_invalid_cpus_repaired: with the proposed EINVAL->ValueError fall-through (a translator fact) the only-unusable-CPU statement holds at full strength in every context. rlimit: RLIM_INFINITY conversion round trip, soft > hard and resource out of range give ValueError with the kernel unchanged. Proved counterexamples for the unfixed front end (empty list after the mask was narrowed to a range) and for the known finding (only-ineligible CPU list answered with OSError). Tied to the code by translator facts (shift and macro shapes from C, level bounds, class set, enum members, pair length, PID-0 refusal, front-end rules) feeding the proof obligation cfg_good, by an exhaustive differential run against a simulated kernel over a fake procfs, and by a live run on spawned child processes through the freshly built extension; every call of the correspondence is made in a call mode drawn at random (plain, fresh oneshot, warm oneshot, as_dict, process_iter object, process_iter(attrs).info, second call, whole history inside one warm oneshot block) and the modes are enumerated completely on a small sub-domain.",
+    "level_text": "Machine-checked Lean 4 proofs over a four-layer model (simulated kernel, native layer with the translator's IOPRIO_CLASS_SHIFT, _pslinux.Process under wrap_exceptions, psutil.Process): ioprio pack/unpack round-trip for every class < 8 and data < 8192; one refinement theorem C18_refines (for EVERY kernel state, process and request, whenever the specification promises an outcome the model produces exactly that outcome and that kernel) with the named corollaries set-then-get for nice/ionice/cpu_affinity/rlimit on every valid value, other processes and other attributes unchanged, the listed invalid requests raise ValueError with an empty effect log, cpu_affinity([]) selects all eligible CPUs, duplicates and order are irrelevant, the get form is sorted and duplicate-free. The native getters take the C errno on entry as an input (translator facts: is errno cleared, which failure test): C18_nice_get_exact / C18_ionice_get_exact / C18_affinity_get_exact hold for every kernel value (nice -1 included) and every entry errno, C18_context_irrelevant carries every theorem over to calls made in any execution context (entry errno; status file cached by oneshot()), with proved counterexamples for the three broken errno protocols (C18_stale_errno_counterexample) and for the stale status file (C18_oneshot_stale_status_counterexample). C18_invalid_cpus_repaired: with the proposed EINVAL->ValueError fall-through (a translator fact) the only-unusable-CPU statement holds at full strength in every context. C18_refines_any_context: under that repair the refinement holds for every request in every context with no excluded region. rlimit: RLIM_INFINITY conversion round trip, soft > hard and resource out of range give ValueError with the kernel unchanged. Proved counterexamples for the unfixed front end (empty list after the mask was narrowed to a range) and for the known finding (only-ineligible CPU list answered with OSError). Tied to the code by translator facts (shift and macro shapes from C, level bounds, class set, enum members, pair length, PID-0 refusal, front-end rules) feeding the proof obligation cfg_good, by an exhaustive differential run against a simulated kernel over a fake procfs, and by a live run on spawned child processes through the freshly built extension; every call of the correspondence is made in a call mode drawn at random (plain, fresh oneshot, warm oneshot, as_dict, process_iter object, process_iter(attrs).info, second call, whole history inside one warm oneshot block) and the modes are enumerated completely on a small sub-domain.",
     "level_note": "Trusted: Lean kernel + {propext, Classical.choice, Quot.sound}; translator; correspondence harness; the simulated kernel's rules (validated live on this kernel only; ioprio class masking is that of Linux >= 6.x); CPUs 0..ncpu-1 all online; privilege failures other than CAP_SYS_RESOURCE/nr_open are not modelled; PID reuse guard is C01's.",
     "technique": "Lean 4 refinement proof by case analysis over requests + bit-arithmetic lemmas + errno-protocol model of the native getters + translator-fed proof obligation + exhaustive differential correspondence (simulated kernel) in randomised call modes + live differential run with a poisoned errno",
     "design_ref": "DESIGN.md §5 C18",
